@@ -1,6 +1,7 @@
-"""C07 — returns/advantages causal (NARROW SLICE: learning signals computed from sampled
-sub-trajectories ignore everything after the first terminated step), by fault injection in
-simulated MR.Q training (twin runs)."""
+"""C07 — returns/advantages obey their recurrences and are causal, decided inside simulated training:
+(1) fault injection (twin runs): post-terminal data of sampled sub-trajectories (MR.Q), another environment's rewards (A2C);
+(2) refinement of the learning signals simulated runs actually produce against float64 recurrences:
+    GAE per environment in A2C and PPO, reward-to-go in REINFORCE / actor-critic datasets."""
 import json
 
 from rlsim import trainplan, trainsim
@@ -9,23 +10,37 @@ from rlsim.core import Result
 
 PROPERTY = "C07"
 LEVEL = "fault_enumeration"
-ENGINE = "TrainSim twin runs (train_mrq) with a fault-injecting SubtrajectoryReplayBufferPER"
-RULE = ("Seeded plans: train_mrq on a scripted environment with many short terminated episodes x encoder horizon 2-3 x q horizon 1-3 x "
+ENGINE = "TrainSim twin runs (train_mrq, A2C collection) with fault injection + recurrence refinement inside simulated A2C / PPO / REINFORCE / actor-critic runs"
+RULE = ("Seeded plans, four kinds. (i) train_mrq on a scripted environment with many short terminated episodes x encoder horizon 2-3 x q horizon 1-3 x "
         "target_delay x done_weight {0, 0.1, 1}. Fault: in the batch RETURNED by one plan-chosen sample_batch call (encoder batch with "
         "intermediates, or critic batch without) every field after the first terminated step of each window (rewards, actions, observations, "
         "successor observations and the later flags) is rewritten with other finite stored values. The plan is executed clean and faulted in "
         "the same process; the complete trace (every logged statistic incl. q loss / q mean / encoder, dynamics, reward, done losses, every "
         "action, final hashes) must be bit-identical. Reach probe: the faulted batch contained a window with a terminated step before its end. "
-        "A quarter of the plans are A2C plans (C07.c): real collect_trajectories + prepare_a2c_batch on 2-3 scripted environments, executed "
-        "twice with the reward script of ONE environment rewritten; advantages and returns of the other environments must be bit-identical. "
-        "Distinct = distinct (configuration, faulted call kind, fired?).")
-REAL = ["train_mrq", "update_model_based_encoder / model_based_encoder_loss", "mrq_loss / update_critic_and_policy", "SubtrajectoryReplayBufferPER (dynamic subclass adds the fault)"]
-STUB = ["environment (SimEnv)"]
-ASSUMPTIONS = ["NARROW SLICE: GAE / reward-to-go / n-step recurrences against float64 references and independence between parallel environments are pure per-call clauses and are NOT decided",
-               "masked contributions are exact zeros, so bitwise comparison of twins is legitimate"]
-TIERS = {"quick": {"runs": 40}, "thorough": {"runs": 1000}}
-REQUIRED = ["other_environments_irrelevant", "post_terminal_windows_faulted", "post_terminal_irrelevant_critic", "post_terminal_irrelevant_encoder"]
-REQUIRED_QUICK = REQUIRED
+        "(ii) A2C plans: real collect_trajectories + prepare_a2c_batch on 2-3 scripted environments, executed twice with the reward script of ONE "
+        "environment rewritten; advantages and returns of the other environments must be bit-identical (C07.c), and the advantages / returns of the "
+        "clean run must equal the float64 GAE recurrence per environment, cut at terminated steps (C07.rec; float64 forward passes of the real value "
+        "network; tolerance 2e-5(1+|x|) + 16|ref32-ref64| + float32 rounding). "
+        "(iii) train_reinforce / train_ac runs (half with integer-typed environment rewards): for every dataset the collector handed to the learner the "
+        "prepared returns equal G_t = r_t + gamma G_{t+1} restarted per episode record and the discount column gamma**t (C07.rtg). "
+        "(iv) train_ppo runs on 2-3 parallel scripted environments (disjoint observation-tag ranges): the value network is asked for the bootstrap of "
+        "environment e only about observations of environment e (C07.ppo.bootstrap; probe on the critic), and the advantages the loss receives "
+        "(recording wrapper around the module-level name ppo_loss, jax.debug.callback) equal, per environment, the GAE recurrence over that environment's "
+        "own segment with the rewards / flags / next values the collector returned (C07.ppo.gae). "
+        "Distinct = distinct (configuration, plan kind, faulted call kind, fired?).")
+REAL = ["train_mrq", "update_model_based_encoder / model_based_encoder_loss", "mrq_loss / update_critic_and_policy", "SubtrajectoryReplayBufferPER (dynamic subclass adds the fault)",
+        "a2c.collect_trajectories / prepare_a2c_batch / compute_gae", "train_ppo / collect_trajectories / update_ppo", "train_reinforce / train_ac / EpisodeDataset.prepare_policy_gradient_dataset"]
+STUB = ["environment (SimEnv; gymnasium SyncVectorEnv is real)"]
+ASSUMPTIONS = ["recurrences are decided on the reward / value / termination sequences that simulated runs produce (scripted episode structures incl. terminations inside a rollout, one-step episodes, integer rewards), not for all sequences",
+               "masked contributions are exact zeros, so bitwise comparison of twins is legitimate",
+               "PPO uses compute_gae's documented defaults gamma=0.99, lambda=0.95 (update_ppo does not expose them); values are recovered as returns - advantages",
+               "the n-step return of MR.Q's critic target is part of the C03 update refinement"]
+TIERS = {"quick": {"runs": 48}, "thorough": {"runs": 1200}}
+REQUIRED = ["other_environments_irrelevant", "post_terminal_windows_faulted", "post_terminal_irrelevant_critic", "post_terminal_irrelevant_encoder",
+            "gae_matches_recurrence", "gae_with_termination_inside_rollout", "reward_to_go_matches_recurrence", "reward_to_go_integer_rewards",
+            "reward_to_go_over_several_episodes", "ppo_bootstrap_inputs_checked", "ppo_advantages_match_per_environment_recurrence", "ppo_segment_boundary_not_terminated"]
+REQUIRED_QUICK = ["other_environments_irrelevant", "post_terminal_windows_faulted", "post_terminal_irrelevant_critic", "post_terminal_irrelevant_encoder",
+                  "gae_matches_recurrence", "reward_to_go_matches_recurrence", "ppo_bootstrap_inputs_checked", "ppo_advantages_match_per_environment_recurrence"]
 CHUNK = 24  # TrainSim plans per fresh worker process
 SHRINK_LISTS = [["env", "script"]]
 PLAN_LIMIT_S = 240
@@ -44,7 +59,7 @@ def make_a2c_plan(rng):
             "seed": rng.randrange(2**31), "hidden": 4, "n_rollouts": rng.choice([1, 2])}
 
 
-def run_a2c(plan, perturb):
+def run_a2c(plan, perturb, refs=None):
     import gymnasium as gym
     import jax
     import jax.numpy as jnp
@@ -74,7 +89,48 @@ def run_a2c(plan, perturb):
         buf, last_obs, _, _ = a2c.collect_trajectories(vec, st.policy, k, last_obs, plan["steps"])
         o, a, adv, ret = a2c.prepare_a2c_batch(buf, st.value_function, last_obs, vec.single_action_space, plan["gamma"], plan["gae_lambda"])
         outs.append((np.asarray(adv).reshape(plan["steps"], plan["num_envs"]), np.asarray(ret).reshape(plan["steps"], plan["num_envs"])))
+        if refs is not None:
+            refs.append(reference_gae(buf, st.value_function, last_obs, plan))
     return outs, sum(e.n_steps for e in envs)
+
+
+def reference_gae(buf, value_function, last_obs, plan):
+    """float64 reference of the defining recurrences, per environment, from the rollout the collector stored:
+    delta_t = r_t + gamma (1 - term_t) V(o_{t+1}) - V(o_t);  A_t = delta_t + gamma lambda (1 - term_t) A_{t+1};  R_t = A_t + V(o_t).
+    Forward passes of the (real) value network in float64 and in float32 (the latter gauges rounding)."""
+    import jax
+    import jax.numpy as jnp
+    import numpy as np
+
+    T, N = plan["steps"], plan["num_envs"]
+    obs = np.asarray(buf.buffer["obs"])[:T]
+    rew = np.asarray(buf.buffer["rewards"], dtype=np.float64)[:T].reshape(T, N)
+    term = np.asarray(buf.buffer["terminations"], dtype=np.float64)[:T].reshape(T, N)
+    g, lam = plan["gamma"], plan["gae_lambda"]
+    out = []
+    for dt in (np.float64, np.float32):
+        def fwd():
+            v = np.asarray(value_function(jnp.asarray(obs.reshape(T * N, -1), dtype=dt)), dtype=np.float64).reshape(T, N)
+            vl = np.asarray(value_function(jnp.asarray(np.asarray(last_obs), dtype=dt)), dtype=np.float64).reshape(N)
+            return v, vl
+        if dt is np.float64:
+            with jax.experimental.enable_x64():
+                v, vl = fwd()
+        else:
+            v, vl = fwd()
+        nv = np.concatenate([v[1:], vl[None]], axis=0)
+        adv = np.zeros((T, N))
+        run = np.zeros(N)
+        for t in range(T - 1, -1, -1):
+            delta = rew[t] + g * (1 - term[t]) * nv[t] - v[t]
+            run = delta + g * lam * (1 - term[t]) * run
+            adv[t] = run
+        out.append((adv, adv + v))
+    (adv, ret), (adv32, ret32) = out
+    scale = 1.0 + np.abs(rew).max() + np.abs(ret).max()
+    tol = 2e-5 * (1 + np.abs(adv)) + 64 * 1.2e-7 * scale * T + 16 * np.abs(adv - adv32)
+    tol_r = 2e-5 * (1 + np.abs(ret)) + 64 * 1.2e-7 * scale * T + 16 * np.abs(ret - ret32)
+    return {"adv": adv, "ret": ret, "tol": tol, "tol_r": tol_r, "term": term}
 
 
 def execute_a2c(plan):
@@ -83,7 +139,8 @@ def execute_a2c(plan):
     res = Result()
     site = "prepare_a2c_batch"
     try:
-        a, n1 = run_a2c(plan, False)
+        refs = []
+        a, n1 = run_a2c(plan, False, refs)
         b, n2 = run_a2c(plan, True)
     except Exception as e:
         from rlsim.core import raised_by_code_under_test
@@ -92,6 +149,18 @@ def execute_a2c(plan):
         res.violate("C07.raise", site, f"{type(e).__name__}: {e}")
         return res
     res.simt("env_steps", n1 + n2)
+    for r, ((adv_a, ret_a), ref) in enumerate(zip(a, refs)):
+        for what, got, want, tol in (("advantage", adv_a, ref["adv"], ref["tol"]), ("return", ret_a, ref["ret"], ref["tol_r"])):
+            bad = np.abs(got.astype(np.float64) - want) > tol
+            if bad.any():
+                t, e = (int(x) for x in np.argwhere(bad)[0])
+                res.violate("C07.rec", site, f"rollout {r}: {what} of environment {e} at time {t} is {got[t, e]!r}, the defining recurrence (cut at terminated steps) gives {want[t, e]!r} "
+                                             f"(gamma={plan['gamma']}, lambda={plan['gae_lambda']}, terminated flags of that environment {ref['term'][:, e].astype(int).tolist()})")
+                return res
+        res.probe("gae_matches_recurrence")
+        tm = ref["term"]
+        if tm[:-1].any():
+            res.probe("gae_with_termination_inside_rollout")
     v = plan["victim"]
     changed_victim = False
     for r, ((adv_a, ret_a), (adv_b, ret_b)) in enumerate(zip(a, b)):
@@ -112,11 +181,44 @@ def execute_a2c(plan):
     return res
 
 
+def make_rtg_plan(rng):
+    """Reward-to-go inside simulated REINFORCE / actor-critic training (datasets of one or several scripted episodes;
+    integer-typed rewards are an environment-seam variation)."""
+    name = rng.choice(["reinforce", "actor_critic"])
+    plan = trainplan.base_plan(rng, PROPERTY, ["C07.rtg"], name, T=rng.choice([12, 20, 30]))
+    ints = rng.random() < 0.5
+    for ep in plan["env"]["script"]:
+        if ints:
+            ep["rew"] = [rng.choice([-2.0, -1.0, 0.0, 1.0, 3.0]) for _ in range(rng.randint(1, 3))]
+    if ints:
+        plan["env"]["reward_type"] = "int"
+    plan["cfg"]["gamma"] = rng.choice([0.5, 0.9, 0.99, 1.0])
+    plan["logger"] = rng.random() < 0.5
+    plan["monitor"] = False
+    plan["kind"] = "rtg"
+    trainplan.sanitize(plan)
+    return plan
+
+
+def make_ppo_plan(rng):
+    """GAE inside simulated PPO training on 2-3 parallel scripted environments."""
+    plan = trainplan.base_plan(rng, PROPERTY, ["C07.ppo"], "ppo")
+    plan["cfg"]["num_envs"] = rng.choice([2, 2, 3])
+    plan["cfg"]["batch_size"] = rng.choice([2, 3, 4, 6])
+    plan["env"]["scripts"] = [trainplan.make_script(rng, 30, style=rng.choice(["short", "mixed", "long", "one_step"])) for _ in range(plan["cfg"]["num_envs"])]
+    plan["logger"] = rng.random() < 0.7
+    plan["monitor"] = False
+    plan["kind"] = "rtg"
+    return plan
+
+
 def make_plan(rng, tier, index):
     if index % 4 == 3:
         plan = make_a2c_plan(rng)
         plan["check"] = PROPERTY
         return plan
+    if index % 4 == 1:
+        return make_rtg_plan(rng) if (index // 4) % 2 == 0 else make_ppo_plan(rng)
     plan = trainplan.base_plan(rng, PROPERTY, [], "mrq", T=rng.choice([24, 30]))
     plan["env"]["script"] = trainplan.make_script(rng, 40, style=rng.choice(["short", "short", "mixed"]))
     for e in plan["env"]["script"]:
@@ -145,6 +247,11 @@ def normalise(plan):
 def execute(plan):
     if plan.get("kind") == "a2c_envs":
         return execute_a2c(plan)
+    if plan.get("kind") == "rtg":
+        run = trainsim.TrainRun(plan)
+        res = run.run()
+        res.signature = f"rtg|{plan['adapter']}|{json.dumps(plan['cfg'], sort_keys=True)}|{plan['env'].get('reward_type')}|{sorted(res.probes)}"
+        return res
     res = Result()
     site = "train_mrq"
     clean = json.loads(json.dumps(plan))
